@@ -8,7 +8,7 @@ import (
 )
 
 // timerule observes the GM reseed time interval in every tier with ONE sleep: all generators of
-// all 28 configurations and a reader wrapper for each are created up front, the test level's 6 s
+// all 40 configurations and a reader wrapper for each are created up front, the test level's 6 s
 // are slept through once, then every object is judged with the clock brackets of DESIGN 6 (C17):
 //
 //	GM generator:  Generate -> refusal REQUIRED (the call began more than the interval after the
@@ -22,7 +22,7 @@ import (
 // whenever a stall leaves a bracket undecided the object is recorded inconclusive, never violated.
 func timerule(x *mon.Ctx) {
 	selfTests(x)
-	c := x.Begin("time-rule: generators and reader wrappers of all 28 configurations at test level created up front; one sleep of 6.3 s; " +
+	c := x.Begin("time-rule: generators and reader wrappers of all 40 configurations at test level created up front; one sleep of 6.3 s; " +
 		"GM: Generate refused (required), Reseed, NeedReseed/Generate served (refusal forbidden) and equal to the model; NIST: served; " +
 		"wrappers: Read before and after the sleep equal to the model (GM: exactly one reseed from the scripted source, bounded by Script.MaxBytes)")
 	if c == nil {
